@@ -465,6 +465,14 @@ pub fn run(ctx: &Ctx) -> Report {
             ("Connection", b"keep-alive".to_vec()),
             ("X-Amz-Expires", b"300".to_vec()),
             ("X-Amz-Target", b"Service.Operation".to_vec()),
+            // headers for which HTTP itself knows other joining rules (cookie crumbs, lists): here they are signed
+            // headers like any other — values joined by commas in arrival order
+            ("Cookie", b"a=1".to_vec()),
+            ("Cookie", b"b=2".to_vec()),
+            ("Accept", b"text/html".to_vec()),
+            ("Accept", b"*/*;q=0.1".to_vec()),
+            ("Cache-Control", b"no-cache".to_vec()),
+            ("Cache-Control", b"no-store".to_vec()),
         ];
         let alts: Vec<&[u8]> = vec![b"0", b"", b"1", b"identity", b"UNSIGNED-PAYLOAD", b"e3b0c44298fc1c149afbf4c8996fb92427ae41e4649b934ca495991b7852b855", b"text/plain", b"11 "];
         let mut cases: Vec<(String, Case)> = Vec::new();
@@ -476,7 +484,9 @@ pub fn run(ctx: &Ctx) -> Report {
                 plan.url_params = vec![(b"u".to_vec(), b"1".to_vec())];
                 for (n, v) in &wk {
                     plan.headers.push((n.to_string(), v.clone()));
-                    plan.signed.push(n.to_ascii_lowercase());
+                    if !plan.signed.contains(&n.to_ascii_lowercase()) {
+                        plan.signed.push(n.to_ascii_lowercase());
+                    }
                 }
                 let mut c = cfg.clone();
                 c.s3 = opt & 1 == 1;
@@ -561,7 +571,7 @@ pub fn run(ctx: &Ctx) -> Report {
     Report {
         stats: st,
         rule: format!(
-            "{} base requests: x-a with every list of 0..2 values over 14 values (spaces outside/inside, empty, comma, 0xE9, quoted, inner/outer/double tabs, values beginning/ending in bytes 0x85 / 0xA0) x x-b (none, one, two values) x content-type (absent/present) x every signed subset of {{x-a, x-b, content-type, x-amz-date}} x 3 arrival orders x 3 name-case styles, header carrier and (1 in 5) query carrier; (1) accepted, canonical request bytes equal to the reference's; (2) on every {} base, every single edit of a signed header (insertion of 4 bytes at every position, deletion and 3 substitutions at every position, value added/removed, two values swapped, value moved to another signed name) with the old signature: Ok iff the reference header block is unchanged; (3) every insertion position of an unsigned header, removal/modification/extra value of every unsigned one, every rotation of the header groups: identical outcome; the same insertions on {} refused bases; (4) a thrice-repeated signed header among 12..100 header lines in 4 arrangements: accepted, refused once two signed values are swapped, unaffected by removing unsigned lines (each 8 times); (5) 8 Host spellings (ports 443/80/8443, upper case, trailing dot, IPv6, doubled port) signed literally on both carriers, each with 36 unsigned headers (well-known hop-by-hop / proxy / content headers and near-miss names of the headers the library consults) added, and every signature presented with every other Host value; (6) a form POST signing 11 entity / framing / payload-digest headers (Content-Length, Content-Type, Content-MD5, X-Amz-Content-Sha256, Transfer-Encoding, Expect, Range, ...) under {{default, S3, fold, S3+fold}} on both carriers: accepted as signed, and judged against the reference for each of 8 replacement values, an added second value and the removal of every one of them. states = distinct reference canonical requests",
+            "{} base requests: x-a with every list of 0..2 values over 14 values (spaces outside/inside, empty, comma, 0xE9, quoted, inner/outer/double tabs, values beginning/ending in bytes 0x85 / 0xA0) x x-b (none, one, two values) x content-type (absent/present) x every signed subset of {{x-a, x-b, content-type, x-amz-date}} x 3 arrival orders x 3 name-case styles, header carrier and (1 in 5) query carrier; (1) accepted, canonical request bytes equal to the reference's; (2) on every {} base, every single edit of a signed header (insertion of 4 bytes at every position, deletion and 3 substitutions at every position, value added/removed, two values swapped, value moved to another signed name) with the old signature: Ok iff the reference header block is unchanged; (3) every insertion position of an unsigned header, removal/modification/extra value of every unsigned one, every rotation of the header groups: identical outcome; the same insertions on {} refused bases; (4) a thrice-repeated signed header among 12..100 header lines in 4 arrangements: accepted, refused once two signed values are swapped, unaffected by removing unsigned lines (each 8 times); (5) 8 Host spellings (ports 443/80/8443, upper case, trailing dot, IPv6, doubled port) signed literally on both carriers, each with 36 unsigned headers (well-known hop-by-hop / proxy / content headers and near-miss names of the headers the library consults) added, and every signature presented with every other Host value; (6) a form POST signing 14 entity / framing / payload-digest / list-valued headers (Cookie, Accept and Cache-Control with two values each) (Content-Length, Content-Type, Content-MD5, X-Amz-Content-Sha256, Transfer-Encoding, Expect, Range, ...) under {{default, S3, fold, S3+fold}} on both carriers: accepted as signed, and judged against the reference for each of 8 replacement values, an added second value and the removal of every one of them. states = distinct reference canonical requests",
             n_bases, if edit_stride == 1 { "" } else { "third" }, n_ref
         ),
         bounds: json!({"bases": n_bases, "edit_stride": edit_stride}),
